@@ -598,3 +598,44 @@ _ROUND6_RULES = {
 }
 for _k, _v in _ROUND6_RULES.items():
     PROPS[_k]["rule"] += " " + _v
+
+_ROUND7_RULES = {
+    "C01": "In a third of the histories without diverging identities one remote moves: everybody synchronises, a new empty bare "
+           "repository takes the remote's place and every replica re-points it with git remote set-url; a pull from the still empty "
+           "place (go-git: remote repository is empty) counts as a pull of nothing.",
+    "C02": "TestC02InterruptedPull: N (1..6) bugs on the remote; the pulling process fetches, merges and is killed after the K-th "
+           "merge result (nothing closed, lock left); the next run opens a cache: every bug with a local reference is listed and "
+           "resolves by id and prefix; a complete pull then brings all N. Non-trivial: K < N.",
+    "C04": "TestC04CommitRetry: after the creation is stored, the K-th (0..40) storage mutation of the session fails once and the "
+           "session goes on (one more comment, another Commit); after a successful Commit the operations the bug lists equal the "
+           "operations a fresh reader finds in git, under the id handed out at creation. Non-trivial: a failure was injected.",
+    "C05": "TestC05CLI may pack every reference with stock git (pack-refs --all --prune) before the final clock loss.",
+    "C06": "Crash states keep the dead process's lock file byte for byte with a pid that is not running; a cache is opened on every "
+           "crash state of TestC06ApiMutations (crash points inside the opening of the cache, before the mutation, are not enumerated).",
+    "C07": "Operators added: C1 control characters (U+0085, U+009B, U+009D) in message, title, label, identity name and login; a null "
+           "(and two nulls) in an identity version's key list.",
+    "C08": "In a quarter of the cases one update of the identities' search index is refused during that pull.",
+    "C09": "Stock git pack-refs between actions (free and planned: r0 packs, the other identities are edited there, then the planned pull).",
+    "C10": "TestC10Cache ends with three runs: a normal close, a run that edits (title, status, label) and is killed before Close "
+           "(lock left), a run that loads the cache files: the excerpt's title, status, labels and comment count equal the "
+           "compilation of the stored operations.",
+    "C11": "TestC11LargePull: N in 1..170 (and 74..77, 149..152) bugs with a word of their own are pulled by an open cache, then each "
+           "gets a comment with a second word and is pulled again; after each pull the search for every word returns exactly its bug "
+           "(what a cache rebuilt from git returns; checked against a real rebuild for N <= 20). Non-trivial: N > 75.",
+    "C12": "TestC12IndexFailure: 2..8 bugs created through a cache whose FailAt-th bugs-index update is refused once; every bug in git "
+           "is returned by the queries that do not use the index (none, status:, title:, sort:) in that session; without a failure "
+           "also after a reopen, search included. Non-trivial: a failure was injected.",
+    "C13": "In a third of the populations stock git packs the references before bug #PackAt is written; later bugs and one more "
+           "identity are loose; the cache is built afterwards.",
+    "C14": "LateRemote (entity API and cache): the removing handle has listed its remotes, stock git adds a remote, the victim is pushed there.",
+    "C17": "One request in eight is preceded by git pack-refs --all --prune on the served repository.",
+    "C18": "A third of TestC18Concurrent's cases close and reopen the cache before the workers start (entities are read when first "
+           "resolved). TestC18Preemption: B may resolve the identities (evicting the author of A's bug).",
+    "C19": "Step idcfg rewrites git-bug.identity: listed twice, upper case, unknown id, or restored; commands are expected to succeed "
+           "only while it is usable, the lock rules hold throughout.",
+    "C20": "TestC20GraphQL: FailK >= 0 sends an addComment whose FailK-th storage operation fails before the walks; bug.comments and "
+           "bug.operations are compared with git when no request failed, or when the failed operation was not the reference update and "
+           "the cache reports nothing pending.",
+}
+for _k, _v in _ROUND7_RULES.items():
+    PROPS[_k]["rule"] += " " + _v
